@@ -30,6 +30,9 @@ def parseInvoke (s : String) : Option Invoke :=
   match s.splitOn ":" with
   | [a, b, c] => do pure { docId := ← nat? a, autoforward := ← bool? b, finalize := ← nat? c }
   | [a, b, c, i] => do pure { docId := ← nat? a, autoforward := ← bool? b, finalize := ← nat? c, id := ← unhex i }
+  | [a, b, c, i, nl] => do
+    let names ← if nl = "." then some [] else (nl.splitOn "+").mapM unhex
+    pure { docId := ← nat? a, autoforward := ← bool? b, finalize := ← nat? c, id := ← unhex i, nameList := names }
   | _ => none
 
 def parseParam (s : String) : Option Param :=
